@@ -400,11 +400,15 @@ structure St where
   ops : Nat := 0
   gcResets : Nat := 0
   panics : Nat := 0
+  dist : List (String × Nat) := []
   tr : Trace.St := {}
   traces : Nat := 0
   trEvents : Nat := 0
   trCapped : Nat := 0
   trMaxWorlds : Nat := 0
+
+def bump (d : List (String × Nat)) (k : String) : List (String × Nat) :=
+  if d.any (·.1 = k) then d.map fun (a, n) => if a = k then (a, n + 1) else (a, n) else d ++ [(k, 1)]
 
 def setVerdict (c : CaseSt) (v : String) : CaseSt :=
   match c.verdict with
@@ -448,6 +452,15 @@ def simLine (st : St) (op : String) (id : String) (fs : List String) (line : Str
     match simOp c.P fixedModel c.sys op fs with
     | .error e => ({ st with cur := { setVerdict c s!"diff {id} op {c.ops} ({op}): {e}" with parted := true } }, [])
     | .ok o =>
+      -- which branch of the anchored function this operation took (for the evidence file)
+      let branch : String :=
+        if op = "died" && o.res = "ok" then
+          let stt : Option NState := (kv fs "dn" >>= parseDN).bind (fun d => (find o.sys.tree d).map (·.state))
+          match stt with
+          | some NState.dead => "died_dead" | some NState.canceled => "died_canceled" | some NState.done => "died_done_quiet" | _ => "died_other"
+        else if op = "gc" then (if o.new.isEmpty then "gc_nothing" else "gc_restart")
+        else s!"{op}_{o.res}"
+      let st := { st with dist := bump st.dist branch }
       let st := { st with ops := st.ops + 1, panics := st.panics + (if o.res = "panic" then 1 else 0),
                           gcResets := st.gcResets + (if op = "gc" then o.new.length else 0) }
       let exp := showDump o.sys o.new
@@ -472,6 +485,7 @@ def step (st : St) (line : String) : St × List String :=
   | _ => (st, [])
 
 def fin (st : St) : List String :=
+  (st.dist.map fun (k, n) => s!"stat branch_{k} {n}") ++
   [s!"stat sim_cases {st.cases}", s!"stat sim_ops {st.ops}", s!"stat sim_gc_resets {st.gcResets}", s!"stat sim_panics {st.panics}",
    s!"stat traces {st.traces}", s!"stat trace_events {st.trEvents}", s!"stat trace_search_capped {st.trCapped}", s!"stat trace_max_search_nodes {st.trMaxWorlds}"]
 
